@@ -16,8 +16,17 @@ Object re-use (section "one object, several runs" at the end): `C08_reuse_eq_fre
 `OSSPSReconstruction` object (set_up → run → change anything → set_up → run …) to the run of a fresh object, so every theorem
 above about `setUp` / `run` / `loop` applies to each run of such a history, with the objective function (data, normalisation,
 prior) and parameters current at that run; the harness drives these histories through the real code (`recfg` / `resetup` ops).
+
+Round-4 extension of `Problem` (section "restricted segment / TOF range, voxels nothing sees" at the end): the objective function
+restricted to fewer segments / TOF bins than the data have (`Problem.maxSegToProcess`, `.maxTofToProcess`, `Problem.processed`)
+and a `PriorWithParabolicSurrogate` other than the quadratic one (`Problem.opaquePrior`: the log-cosh prior, its answers are
+data).  Again every theorem about `updateEstimate` / `loop` / `setUp` applies unchanged — in particular `C08_D_positive_in_run`
+("D strictly positive", with a prior present whose kappa image / weights vanish where the data see nothing: `C08_D_zero_before_
+thresholding_with_prior`) and `C08_in_bounds_run`; `C08_restricted_range_is_one_matrix` adds that gradient, sensitivity, balancing
+and the approximate Hessian (hence D) of a restricted objective function all belong to ONE system matrix.
 -/
 import StirVerif.C08.ProofsReuse
+import StirVerif.C08.ProofsRange
 
 namespace StirVerif.C08
 
@@ -115,7 +124,10 @@ theorem C08_D_ge_small_fails :
 
 /-- in every sub-iteration of every run — after `set_up`, for any start image, denominator, parameters, objective — the
     image the numerator is divided by is strictly positive (first sub-iteration: freshly thresholded; later: recomputed and
-    thresholded, or the stored thresholded one) -/
+    thresholded, or the stored thresholded one).  `obj` is arbitrary: with or WITHOUT a prior (`workDenominator` thresholds after
+    the penalty curvature was added, so a prior whose curvature vanishes in voxels the data do not see — kappa image 0 outside the
+    FOV, all weights 0 — is covered: `C08_D_zero_before_thresholding_with_prior`; the harness drives exactly such problems,
+    quadratic and log-cosh, through the real code), any segment / TOF range of the objective function. -/
 theorem C08_D_positive_in_run (p : Params) (obj : Objective) (start : Int) (img d : Img) (n : Nat) :
     let s := loop p obj start n ⟨img, d, start⟩
     ∀ v ∈ denomUsed obj (s.k == start) (currentImage obj s.image) s.denom, 0 < v :=
@@ -585,5 +597,107 @@ example : runObject (some [2, 3])
     = run witParams witObjPrior 1 [5, 1] :=
   C08_restart_eq_reused_object witParams witObjPrior [5, 1] [5, 1] [0, 1] 1 (le_refl _) (by simp [witParams])
     (by simp [setUp, precomputeDenominator, witParams, witObjPrior]) rfl (fun _ _ _ _ => rfl) (Or.inl rfl) (some [2, 3])
+
+/-! ## restricted segment / TOF range, voxels nothing sees -/
+
+/-- "Phi the penalised objective … D … minus the approximate log-likelihood Hessian applied to a uniform image": when the
+    objective function is restricted to fewer segments / TOF bins than the data have (`maximum absolute segment number to
+    process`, `set_max_timing_pos_num_to_process`), the sub-gradient of every subset, the sensitivity (hence the non-identifiable
+    voxels), the balancing of the subsets AND the approximate Hessian on the uniform image (hence D) are those of one and the same
+    problem: `q.restrict`, whose data consist of exactly the bins inside the range (and which has no restriction left).  So D
+    belongs to the same Phi as the gradient — for every problem, every range, every image. -/
+theorem C08_restricted_range_is_one_matrix (q : Problem) :
+    (∀ S x, q.gradLik S x = q.restrict.gradLik S x) ∧ q.hessOnes = q.restrict.hessOnes ∧
+    q.sensitivity = q.restrict.sensitivity ∧ q.nonIdent = q.restrict.nonIdent ∧ q.balanced = q.restrict.balanced ∧
+    (∀ r ∈ q.restrict.rows, r ∈ q.rows ∧ q.processed r = true) ∧
+    (∀ r ∈ q.rows, q.processed r = true → r ∈ q.restrict.rows) := by
+  refine ⟨fun S x => (gradLik_restrict q S x).symm, (hessOnes_restrict q).symm, (sensitivity_restrict q).symm, ?_,
+    (balanced_restrict q).symm, ?_, ?_⟩
+  · unfold Problem.nonIdent; rw [sensitivity_restrict]
+  · intro r hr
+    have : r ∈ q.rows.filter q.processed := hr
+    simpa using this
+  · intro r hr hp
+    show r ∈ q.rows.filter q.processed
+    simp [hr, hp]
+
+/-- `set_up` refuses (`error("max_segment_num_to_process (%d) is too large")`, same for the TOF bins) a range that exceeds the
+    data's: no OSSPS run, whatever the other parameters -/
+theorem C08_range_larger_than_data_refused (p : Params) (q : Problem) (start : Int) (target : Img)
+    (h : (∃ m, q.maxSegToProcess = some m ∧ q.dataMaxSeg < m) ∨ (∃ m, q.maxTofToProcess = some m ∧ q.dataMaxTof < m)) :
+    run p q.toObjective start target = none := by
+  have hok : q.toObjective.setUpOk = false := by
+    show q.setUpOk = false
+    unfold Problem.setUpOk Problem.rangeOk
+    rcases h with ⟨m, hm, hlt⟩ | ⟨m, hm, hlt⟩
+    · rw [hm]; simp; intro h1; omega
+    · rw [hm]; simp; intro _ h1; omega
+  unfold run setUp
+  rw [hok]
+  split_ifs <;> simp_all
+
+/-- one voxel, one subset, two bins seeing it with weight 1 and 2 counts each: one in segment 0, one in segment 1; the
+    objective function is restricted to segment 0 -/
+def witSegs : Problem :=
+  { nz := 1, ny := 1, nx := 1, numSubsets := 1, numViewgrams := 2, prior := none, priorNotParabolic := false,
+    maxSegToProcess := some 0, dataMaxSeg := 1,
+    rows := #[{ vg := 0, subset := 0, y := 2, add := 0, elems := [(0, 1)], seg := 0 },
+              { vg := 1, subset := 0, y := 2, add := 0, elems := [(0, 1)], seg := 1 }] }
+
+/-- non-vacuity of `C08_restricted_range_is_one_matrix`, and what goes wrong when ONE of the quantities takes the data's own
+    segment range instead (the seeded slip "handle asymmetric segment ranges" in the approximate Hessian): gradient (at x = 1:
+    2/1 - 1 = 1), sensitivity (1) and D (1/2) of the restricted problem are those of the one-bin problem; with all segments D
+    would be 1 — twice as large, every OSSPS step half as long — while gradient and sensitivity stay those of one bin. -/
+theorem C08_restricted_range_example :
+    witSegs.gradLik 0 #[1] = #[1] ∧ witSegs.sensitivity = #[1] ∧ witSegs.hessOnes = #[-1 / 2] ∧
+    witSegs.restrict.rows.size = 1 ∧ witSegs.setUpOk = true ∧
+    ({ witSegs with maxSegToProcess := none } : Problem).hessOnes = #[-1] ∧
+    ({ witSegs with maxSegToProcess := some 2 } : Problem).setUpOk = false := by
+  refine ⟨?_, ?_, ?_, ?_, ?_, ?_, ?_⟩ <;> decide +kernel
+
+/-- the model side of the oracle clause "a voxel whose gradient component is 0 keeps its (clamped) value": with the strictly
+    positive — in particular finite, non-zero — denominator the update `ζ·N·0/D` is 0.  (In float arithmetic a denominator that
+    is exactly 0 would give 0/0 = NaN here; `C08_D_positive_in_run` is what excludes it.) -/
+theorem C08_zero_gradient_voxel_keeps_value (p : Params) (obj : Objective) (start : Int) (s : State) (j : Nat) (xj dj : Rat)
+    (hx : (currentImage obj s.image)[j]? = some xj)
+    (hg : (obj.grad (subsetNum s.k p.startSubset p.numSubsets) (currentImage obj s.image))[j]? = some 0)
+    (hd : (denomUsed obj (s.k == start) (currentImage obj s.image) s.denom)[j]? = some dj) :
+    (updateEstimate p obj start s).image[j]? = some (thresholdUpperLower 0 p.upperBound xj) := by
+  rw [C08_ossps_formula p obj start s j xj 0 dj hx hg hd]
+  simp
+
+/-- three voxels in a row; voxel 0 is seen by no bin and has kappa 0 (a kappa image as it looks outside the FOV), voxels 1 and
+    2 are seen by one bin each (2 counts) and have kappa 1; quadratic prior, weights 1 for the two in-line neighbours, factor 1 -/
+def witKappaZero : Problem :=
+  { nz := 1, ny := 1, nx := 3, numSubsets := 1, numViewgrams := 1, priorNotParabolic := false,
+    prior := some { beta := 1, wMinZ := 0, wMaxZ := 0, wMinY := 0, wMaxY := 0, wMinX := -1, wMaxX := 1, weights := #[1, 0, 1],
+                    kappa := some #[0, 1, 1], depends := false },
+    rows := #[{ vg := 0, subset := 0, y := 2, add := 0, elems := [(1, 1)] },
+              { vg := 0, subset := 0, y := 2, add := 0, elems := [(2, 1)] }] }
+
+/-- "D the strictly positive precomputed curvature (… plus twice the prior's surrogate curvature)" with a prior PRESENT whose
+    curvature vanishes where the data see nothing: data part `[0, 1/2, 1/2]`, penalty curvature `[0, 1, 1]`, so before the
+    thresholding D is EXACTLY 0 in voxel 0 — the penalty does not make the denominator positive — and
+    `threshold_min_to_small_positive_value` (applied after the penalty term was added, prior or no prior) lifts it to `10.E-6F`
+    times the smallest positive element.  The voxel has gradient 0 (neither data nor penalty see it) and keeps its value 0. -/
+theorem C08_D_zero_before_thresholding_with_prior :
+    witKappaZero.toObjective.priorIsZero = false ∧
+    precomputeDenominator witKappaZero.toObjective = [0, 1 / 2, 1 / 2] ∧
+    witKappaZero.toObjective.curv [0, 1, 3] = [0, 1, 1] ∧
+    denomUsed witKappaZero.toObjective true [0, 1, 3] [0, 1 / 2, 1 / 2] = [5 / 2 * smallNumber, 5 / 2, 5 / 2] ∧
+    witKappaZero.toObjective.grad 0 [0, 1, 3] = [0, 3, -7 / 3] ∧
+    (updateEstimate { witParams with numSubiterations := 1 } witKappaZero.toObjective 1 ⟨[0, 1, 3], [0, 1 / 2, 1 / 2], 1⟩).image
+      = [0, 11 / 5, 31 / 15] := by
+  refine ⟨?_, ?_, ?_, ?_, ?_, ?_⟩ <;> decide +kernel
+
+/-- non-vacuity of `C08_zero_gradient_voxel_keeps_value`: voxel 0 of the problem above -/
+example : (updateEstimate { witParams with numSubiterations := 1 } witKappaZero.toObjective 1
+      ⟨[0, 1, 3], [0, 1 / 2, 1 / 2], 1⟩).image[0]? = some (thresholdUpperLower 0 10 0) :=
+  C08_zero_gradient_voxel_keeps_value { witParams with numSubiterations := 1 } witKappaZero.toObjective 1
+    ⟨[0, 1, 3], [0, 1 / 2, 1 / 2], 1⟩ 0 0 (5 / 2 * smallNumber) (by decide +kernel) (by decide +kernel) (by decide +kernel)
+
+/-- non-vacuity of `C08_range_larger_than_data_refused`: the two-segment problem asked to process segments -2 … 2 -/
+example : run witParams ({ witSegs with maxSegToProcess := some 2 } : Problem).toObjective 1 [1] = none :=
+  C08_range_larger_than_data_refused witParams _ 1 [1] (Or.inl ⟨2, rfl, by decide⟩)
 
 end StirVerif.C08
